@@ -3,7 +3,7 @@
    ccd.py / cmos.py / mkid.py / apd.py (to_dict, from_dict), detector.py (dispatch), photon.py (sub-keys),
    models/util.py (load_detector body shape). *)
 From Coq Require Import ZArith List Bool String Ascii.
-From PyxelV Require Import Model.Codec Proofs.Codec.
+From PyxelV Require Import Model.Codec Proofs.Codec Model.CodecTree Proofs.CodecTree.
 From PyxelGen Require Import Gen_C18.
 Import ListNotations.
 Open Scope string_scope.
@@ -70,6 +70,34 @@ Theorem C18_tree_trip_is_the_data_route :
   Some (PKeyed (tree_trip slash hash m)).
 Proof. exact (dec_enc_data_is_tree_trip src_tables). Qed.
 Print Assumptions C18_tree_trip_is_the_data_route.
+
+(* the NESTING itself: a tree (any depth, any number of groups, with or without content) is flattened into
+   {path: group} (DataTree.to_dict), its paths are escaped '/' -> '#', unescaped, and the tree is rebuilt
+   (DataTree.from_dict, creating groups along each path): the same tree comes back, for ALL trees whose sibling names
+   are distinct and whose names are non-empty and contain neither '/' (xarray guarantees both) nor '#' *)
+Theorem C18_tree_nesting_invertible :
+  forall t, wf_tree t = true -> names_free_of slash t = true -> names_free_of hash t = true ->
+  tree_from_dict slash hash (tree_to_dict slash hash t) = t.
+Proof. intros t. apply tree_roundtrip. reflexivity. Qed.
+Print Assumptions C18_tree_nesting_invertible.
+
+(* hence two different trees never share a dictionary *)
+Theorem C18_tree_flattening_injective :
+  forall t1 t2,
+  wf_tree t1 = true -> names_free_of slash t1 = true -> names_free_of hash t1 = true ->
+  wf_tree t2 = true -> names_free_of slash t2 = true -> names_free_of hash t2 = true ->
+  tree_to_dict slash hash t1 = tree_to_dict slash hash t2 -> t1 = t2.
+Proof. intros t1 t2. apply tree_to_dict_injective. reflexivity. Qed.
+Print Assumptions C18_tree_flattening_injective.
+
+(* every group is an entry of the dictionary, whatever it holds *)
+Theorem C18_every_group_is_a_key :
+  forall t p ds, In (p, ds) (flat t) -> In (replace_char slash hash (render p), ds) (tree_to_dict slash hash t).
+Proof.
+  intros t p ds H. unfold tree_to_dict, map_keys. apply in_map_iff.
+  exists (render p, ds). split; [reflexivity | apply every_group_is_a_key; exact H].
+Qed.
+Print Assumptions C18_every_group_is_a_key.
 
 (* ------------------------------------------------------------------ refutations (witnesses) *)
 Definition an_arr : arr := mk_arr "float64" [1%Z; 2%Z] [4607182418800017408%Z; 0%Z].
@@ -181,6 +209,29 @@ Example C18_a_tree_meets_hypotheses : keys_nohash a_tree = true /\ paths_closed 
 Proof. vm_compute. split; reflexivity. Qed.
 Example C18_a_tree_groups_kept :
   map fst (tree_trip slash hash a_tree) = ["/"; "/stat"; "/stat/pix"; "/prov"; "/prov/empty"].
+Proof. vm_compute. reflexivity. Qed.
+
+(* a_tree as a nested tree (depth 2, variable-less groups): it meets the hypotheses of C18_tree_nesting_invertible,
+   its flattening is a_tree, and a deeper one (depth 4 through empty groups) as well *)
+Definition a_nested : dtree :=
+  DNode [("attr:title=s:t", mk_arr "-" [] [])]
+    [("stat", DNode [("coord:time|time", mk_arr "float64" [2%Z] [1%Z; 2%Z])]
+                [("pix", DNode [("var:mean|time", mk_arr "float32" [2%Z] [3%Z; 4%Z])] [])]);
+     ("prov", DNode [("attr:run=i:42", mk_arr "-" [] [])] [("empty", DNode [] [])])].
+Definition a_deep : dtree :=
+  DNode [] [("a b", DNode [] [("0", DNode [] [(".h", DNode [] [("x.y", DNode [("attr:k=i:1", mk_arr "-" [] [])] [])])])])].
+Example C18_a_nested_meets_hypotheses :
+  forallb (fun t => wf_tree t && names_free_of slash t && names_free_of hash t) [a_nested; a_deep] = true.
+Proof. vm_compute. reflexivity. Qed.
+Example C18_a_nested_flattens_to_a_tree : keyed_eqb (flatten_keys a_nested) a_tree = true.
+Proof. vm_compute. reflexivity. Qed.
+Example C18_a_deep_keys :
+  map fst (tree_to_dict slash hash a_deep) = ["#"; "#a b"; "#a b#0"; "#a b#0#.h"; "#a b#0#.h#x.y"].
+Proof. vm_compute. reflexivity. Qed.
+(* a '#' in a name: the rebuilt tree is a different one (the hypothesis of the theorem is needed) *)
+Example C18_hash_name_nests :
+  tree_from_dict slash hash (tree_to_dict slash hash (DNode [] [("a#b", DNode [] [])])) =
+  DNode [] [("a", DNode [] [("b", DNode [] [])])].
 Proof. vm_compute. reflexivity. Qed.
 
 (* the witnesses of the repaired defects now come back unchanged *)
